@@ -166,6 +166,19 @@ func (p Params) Body() func() {
 				hx.Fail("broadcast-missed", "Broadcast was issued after all %d waiters had released the lock, but %d are still blocked", p.K, blockedLive)
 			}
 		} else if blockedLive > 0 && nilReturns < p.M {
+			// with late waiters (who entered while the Signals were being issued): did the wake-ups at
+			// least reach SOMEBODY, or did they vanish?
+			lateNil := 0
+			hx.Atomically(func() {
+				for i := p.K; i < p.K+p.Late; i++ {
+					if res[i].done && res[i].err == nil {
+						lateNil++
+					}
+				}
+			})
+			if p.Late > 0 && nilReturns+lateNil >= p.M {
+				hx.Fail("late-waiter-took-the-wakeup", "%d Signal calls were issued after %d waiters had released the lock; %d of them were woken, the other wake-ups went to waiters that entered later, and %d of the %d are still blocked", p.M, p.K, nilReturns, blockedLive, p.K)
+			}
 			hx.Fail("lost-wakeup", "%d Signal calls were issued after all %d waiters had released the lock; only %d Wait calls returned nil while %d waiters with a live context are still blocked", p.M, p.K, nilReturns, blockedLive)
 		}
 		hx.Outcome("nil=%d blocked=%d", nilReturns, blockedLive)
@@ -255,6 +268,7 @@ func All() []Params {
 		Params{K: 2, M: 1, Prior: 1, Shared: true},
 		Params{K: 1, M: 1, Broadcast: true, Both: true},
 		Params{K: 2, M: 2, Broadcast: true, Both: true},
+		Params{K: 1, M: 1, Late: 1},
 		Params{K: 1, Broadcast: true, Late: 1},
 		Params{K: 2, Broadcast: true, Late: 1},
 	)
